@@ -223,6 +223,73 @@ def run_fx(c) -> CaseResult:
     return res
 
 
+# ------------------------------------------------------------------ compiled regions that END in a scaling primitive
+
+
+@st.composite
+def prim_cases(draw, tier):
+    return dict(kind=draw(st.sampled_from(["scale_bwd", "scale_fwd", "residual_split", "residual_split_input", "split_add", "split_op_add"])),
+                inner=draw(st.sampled_from(["linear", "gelu", "mul", "none"])), tau=draw(st.sampled_from([0.5, 1.0, 0.1, 3.0])),
+                factor=draw(st.sampled_from([0.5, 2.0, -1.5, 0.0, 3 ** -0.5])), dtype=draw(st.sampled_from(["float32", "float64"])),
+                seed=draw(st.integers(0, 10**6)), backend="aot_eager", h=draw(st.integers(2, 5)))
+
+
+def run_prim(c) -> CaseResult:
+    """the compiled region returns the outputs of scale_fwd / scale_bwd / residual_split directly (AOT autograd treats outputs that
+    alias graph intermediates specially): values and gradients must still equal eager"""
+    import unit_scaling.functional as U
+    from unit_scaling.scale import scale_bwd, scale_fwd
+    res = CaseResult()
+    dt = pb.DT[c["dtype"]]
+    g = torch.Generator().manual_seed(c["seed"])
+    h = c["h"]
+    x0 = torch.randn(3, h, generator=g, dtype=dt)
+    w0 = torch.randn(h, h, generator=g, dtype=dt)
+    tau, a = c["tau"], c["factor"]
+
+    def inner(x, w):
+        return {"linear": lambda: U.linear(x, w, None), "gelu": lambda: U.gelu(x), "mul": lambda: x * 1.5, "none": lambda: x}[c["inner"]]()
+
+    def fn(x, w):
+        t = inner(x, w)
+        k = c["kind"]
+        if k == "scale_bwd":
+            return (scale_bwd(t, a),)
+        if k == "scale_fwd":
+            return (scale_fwd(t, a),)
+        if k == "residual_split":
+            return U.residual_split(t, tau)
+        if k == "residual_split_input":
+            return U.residual_split(x, tau)
+        r, s_ = U.residual_split(t, tau)
+        if k == "split_op_add":
+            r = torch.tanh(r)
+        return (U.residual_add(r, s_, tau),)
+
+    def run(f):
+        x = x0.clone().requires_grad_()
+        w = w0.clone().requires_grad_()
+        outs = f(x, w)
+        ups = [torch.randn(o.shape, generator=torch.Generator().manual_seed(c["seed"] + i), dtype=o.dtype) for i, o in enumerate(outs)]
+        gs = torch.autograd.grad(list(outs), [x, w], ups, allow_unused=True)
+        return [o.detach() for o in outs], gs
+    o0, g0 = run(fn)
+    try:
+        torch._dynamo.reset()
+        o1, g1 = run(torch.compile(fn, backend=c["backend"], fullgraph=True))
+    except Exception as e:  # noqa: BLE001
+        res.fail(exc_bucket(f"C20.compile.raises:primitive:{c['kind']}", e).replace("outside-library", "in-torch")[:300], f"{type(e).__name__}: {str(e)[:300]}")
+        return res
+    tol = TOL[c["dtype"]]
+    if not all(close(a_, b_, tol) for a_, b_ in zip(o1, o0)):
+        res.fail(f"C20.compile.value:primitive:{c['kind']}", f"compiled region ending in {c['kind']} (inner={c['inner']}) returns other values than eager")
+    if not all(close(a_, b_, tol * 10) for a_, b_ in zip(g1, g0)):
+        res.fail(f"C20.compile.grad:primitive:{c['kind']}", f"compiled region ending in {c['kind']} (inner={c['inner']}, tau={tau}, factor={a}): gradients differ from eager")
+    res.nontrivial = True
+    res.labels.append("primitive:" + c["kind"])
+    return res
+
+
 # ------------------------------------------------------------------ the library's leaf-wrapping tracer: gradients too
 
 
@@ -275,12 +342,13 @@ CHECK = Check(
     parts=[Part("functions", run_fn, strategy=fn_cases, budget={"quick": 120, "thorough": 1500}),
            Part("modules", run_mod, strategy=mod_cases, budget={"quick": 50, "thorough": 600}),
            Part("compositions", run_comp, strategy=comp_cases, budget={"quick": 16, "thorough": 200}),
+           Part("primitives", run_prim, strategy=prim_cases, budget={"quick": 60, "thorough": 1000}),
            Part("leaf-tracer", run_leaf, strategy=leaf_cases, budget={"quick": 60, "thorough": 1200}),
            Part("fx", run_fx, strategy=fx_cases, budget={"quick": 200, "thorough": 3000})],
     rule=("functions: every public function with C01's shapes / hyper-parameters / constraints in float32, float64, bfloat16, eager vs "
           "torch.compile(fullgraph=True) after torch._dynamo.reset(), backend aot_eager (quick) and inductor (1/13 of thorough cases); outputs "
           "and all gradients for the same upstream gradient within the dtype tolerance. modules: C08's module configurations compiled as "
-          "modules. compositions: User-Guide hand conversions of random DSL programs (2-6 unit-scaled ops) compiled as plain functions. leaf-tracer: DSL modules (incl. direct U.scale_fwd / U.scale_bwd calls) traced with the library's own leaf-wrapping tracer, forward values and all gradients vs eager. fx: "
+          "modules. compositions: User-Guide hand conversions of random DSL programs (2-6 unit-scaled ops) compiled as plain functions. primitives: compiled regions whose *outputs* are the results of scale_fwd / scale_bwd / residual_split applied to an input or an intermediate (and split/op/add), values and gradients vs eager. leaf-tracer: DSL modules (incl. direct U.scale_fwd / U.scale_bwd calls) traced with the library's own leaf-wrapping tracer, forward values and all gradients vs eager. fx: "
           "fx.symbolic_trace + GraphModule forward values (ops whose Python-level shape arithmetic plain fx cannot trace are counted, not failed). "
           "Stochastic configurations (dropout p>0 in training) are excluded: eager and compiled RNG streams are not comparable. "
           "Non-trivial = constraint None (distinct forward/backward factors) or a non-float32 dtype; modules/compositions/fx always."),
